@@ -218,6 +218,28 @@ def enumerate_plate(col, pp, rows, cols, labelling, shard_filter):
         invalid([(1, 1), (rows[0], only_rows[0])], 'row-label-used-as-column-in-list')
     if only_cols:
         invalid(f"{only_cols[0]}:{cols[0]}", 'column-label-used-as-row')
+    # labels are matched exactly: a spelling that differs from a label in letter case (or by surrounding blanks) and
+    # is not itself a label of that axis is unknown
+    def variants(label):
+        return [v for v in (label.lower(), label.upper(), label.swapcase(), label + ' ', ' ' + label) if v != label]
+    for i, r in enumerate(rows):
+        for v in variants(r):
+            if v in rows or ':' in v:
+                continue
+            invalid(v, 'row-label-variant')
+            invalid((v, 1), 'row-label-variant')
+            invalid(f"{v}:{cols[0]}", 'row-label-variant')
+            invalid(slice(v, None), 'row-label-variant-slice-start')
+            invalid(slice(None, v), 'row-label-variant-slice-stop')
+            invalid([(v, cols[0])], 'row-label-variant-in-list')
+    for c in cols:
+        for v in variants(c):
+            if v in cols or ':' in v:
+                continue
+            invalid((1, v), 'col-label-variant')
+            invalid(f"{rows[0]}:{v}", 'col-label-variant')
+            invalid((slice(None), slice(v, None)), 'col-label-variant-slice-start')
+            invalid((slice(None), slice(None, v)), 'col-label-variant-slice-stop')
 
 
 def check_default_labels(col, pp, n_rows, n_cols):
@@ -258,6 +280,8 @@ def run(col):
                 enumerate_plate(col, pp, custom_labels(nr, 'r'), custom_labels(nc, 'c'), 'custom', shard_filter)
                 # the same label strings on both axes, at different positions
                 enumerate_plate(col, pp, ['0', '1', '10', 'A', 'x'][:nr], ['10', 'A', '1', '0', 'x'][:nc], 'shared', shard_filter)
+                # labels that differ only in letter case are different labels
+                enumerate_plate(col, pp, ['a', 'A', 'Ab', 'aB', 'b'][:nr], ['x', 'X', 'a', 'xY', 'Xy'][:nc], 'case', shard_filter)
     col.exhaustive = True
 
     def t_big():
